@@ -470,8 +470,8 @@ class CallMixin:
             if attr == "append":
                 x = args[0]
                 obj.arr = z3.Store(obj.arr, obj.hi, rterm(x))
+                self.note_mutation(obj, "append")
                 obj.hi = z3.simplify(obj.hi + 1)
-                self.note_mutation(obj)
                 return None
             if attr == "popleft":
                 if not self.path.branch(obj.hi > obj.lo):
@@ -482,7 +482,7 @@ class CallMixin:
                 return v
             if attr == "clear":
                 obj.lo = obj.hi
-                self.note_mutation(obj)
+                self.note_mutation(obj, "clear")
                 return None
         if isinstance(obj, EnumMap):
             if attr == "get":
@@ -504,10 +504,27 @@ class CallMixin:
                         present[n] = True
                 return EnumSet(obj.cls, present)
             if attr == "items":
-                raise Unsupported("EnumMap.items")
+                out = []
+                for n, _ in obj.cls.enum_members:
+                    v = obj.slots.get(n, UNDEF)
+                    if v is UNDEF or v is None:
+                        continue
+                    if isinstance(v, SOpt):
+                        if self.path.branch(v.none):
+                            continue
+                        v = v.val
+                    out.append((self.enum_member(obj.cls, n), v))
+                return out
         if isinstance(obj, EnumSet):
             if attr == "update":
                 other = args[0]
+                if isinstance(other, (list, tuple)) and all(isinstance(x, EnumVal) for x in other):
+                    for x in other:
+                        nm = self.enum_concrete_name(x)
+                        if nm is None:
+                            raise Unsupported("update with symbolic member")
+                        obj.slots[nm] = True
+                    return None
                 if isinstance(other, EnumSet):
                     for n in obj.slots:
                         a, b = obj.slots[n], other.slots[n]
@@ -520,6 +537,8 @@ class CallMixin:
                 k = args[0]
                 if isinstance(k, str):
                     return obj.get(k, args[1] if len(args) > 1 else None)
+                if not obj:
+                    return args[1] if len(args) > 1 else None
             if attr == "items":
                 return list(obj.items())
             if attr == "keys":
@@ -546,6 +565,6 @@ class CallMixin:
                     return obj.startswith(args[0])
         raise Unsupported(f"method {attr} on {obj!r}")
 
-    def note_mutation(self, obj):
+    def note_mutation(self, obj, what=None):
         for h in self.mutation_hooks:
-            h(self, obj)
+            h(self, obj, what)
